@@ -64,7 +64,12 @@ def build(fr, geom_name, asc=None, t_start=1000.0):
                           fch1=(fch1 / 1e6) * u.MHz if (F % 2) else (fch1 / 1e9) * u.GHz, ascending=asc, **kw)
     elif route == "backend":
         b = BACKENDS[geom_name]
-        frame = stg.Frame.from_backend_params(fchans=F, obs_length=(T + 0.5) * dt, sample_rate=b["sample_rate"],
+        # half of the frames ask for a duration inside the T-th integration, the other half for exactly T integrations
+        # (T * dt with the library's own dt): T whole integrations fit, unless the float quotient itself falls below T
+        obs_length = (T + 0.5) * dt
+        if (F + T + lo) % 2 == 0 and (T * dt) / dt >= T:
+            obs_length = T * dt
+        frame = stg.Frame.from_backend_params(fchans=F, obs_length=obs_length, sample_rate=b["sample_rate"],
                                               num_branches=b["num_branches"], fftlength=b["fftlength"],
                                               int_factor=b["int_factor"], fch1=fch1, ascending=asc)
     else:
@@ -142,9 +147,10 @@ def check(out, geom_name):
         k = int(frame.get_index(f))
         if k != j:
             raise Div("index(frequency(%d))" % j, j, k)
-        k = int(frame.get_index(fs[j] * u.Hz))
-        if k != j:
-            raise Div("index(fs[%d] Hz)" % j, j, k)
+        for unit in (u.Hz, u.kHz, u.MHz, u.GHz):
+            k = int(frame.get_index((fs[j] * u.Hz).to(unit)))
+            if k != j:
+                raise Div("index(fs[%d] %s)" % (j, unit), j, k)
     idx = out["index"]
     for gkey, allowed in idx.items():
         g = int(gkey)
